@@ -213,7 +213,8 @@ def one(args):
         req.update({"op": "process_file", "path": os.path.join(root, single), "out_dir": outd, "cwd": base})
         exp = {os.path.join(outd, os.path.basename(single)[:-len(".lalrpop")] + ".rs"): grammars[single]}
     # outputs colliding on one path: "exactly one .rs each" cannot hold; unspecified -> skip
-    if len(exp) != (len(grammars) if mode not in ("cargo", "cli_beside", "cli_out", "file_out", "dir_noenv") else len(exp)):
+    n_expected = len(sub) if mode == "cargo" else (len(grammars) if mode not in ("cli_beside", "cli_out", "file_out", "dir_noenv") else len(exp))
+    if len(exp) != n_expected:
         shutil.rmtree(base, ignore_errors=True)
         return [], {"skipped_colliding_outputs": 1}, None
     if any(os.path.exists(p) for p in exp):
